@@ -53,23 +53,25 @@ def arun (fuel : Nat) : Flow → List Nat → List Nat × Bool
   | .skip, S => (S, false)
   | .stop, _ => ([], false)
   | .seq a b, S =>
-      let r := arun fuel a S
-      let q := arun fuel b r.1
-      (q.1, r.2 || q.2)
+      match arun fuel a S with
+      | (S1, f1) => match arun fuel b S1 with
+        | (S2, f2) => (S2, f1 || f2)
   | .ite a b, S =>
-      let r := arun fuel a S
-      let q := arun fuel b S
-      (r.1 ++ q.1, r.2 || q.2)
+      match arun fuel a S, arun fuel b S with
+      | (S1, f1), (S2, f2) => (S1 ++ S2, f1 || f2)
   | .loop a, S =>
-      let H := iterJoin (fun acc => (arun fuel a acc).1) fuel S
-      let r := arun fuel a H
-      if r.1.all (H.contains ·) then (H, r.2) else ([], true)
+      match arun fuel a (iterJoin (fun acc => (arun fuel a acc).1) fuel S) with
+      | (S1, f1) => if S1.all ((iterJoin (fun acc => (arun fuel a acc).1) fuel S).contains ·) then (iterJoin (fun acc => (arun fuel a acc).1) fuel S, f1) else ([], true)
+
+/-- rounds of `S ↦ S ∪ body(S)` before the post-fixpoint test of a loop (a may-alias set grows by whole names: the skeletons of the
+    library need one or two rounds; if the test fails the verdict is "may modify") -/
+def flowFuel : Nat := 3
 
 open Gen.Effects in
 /-- parameters (by position) of a tabled function that the analysis says may be modified: parameter `p` is tracked by starting from
     the state `{p}` (names `0 … k-1` are the parameters) -/
 def flowMutated (f : FlowInfo) : List String :=
-  (f.params.zipIdx.filter (fun pi => (arun (f.names + 1) f.body [pi.2]).2)).map (·.1)
+  (f.params.zipIdx.filter (fun pi => (arun flowFuel f.body [pi.2]).2)).map (·.1)
 
 def findFlow (name : String) : Option Gen.Effects.FlowInfo := Gen.Effects.flows.find? (fun f => f.fn == name)
 
